@@ -137,24 +137,35 @@ theorem parseNode_eq (desc : Option (List UInt8)) (cfg : Cfg) (t : UInt8) (k : K
   rw [← hcfg, hr]
   simp [hcode]
 
-theorem parseNode_enc (d : Decor) (hd : d.ok) (f : Forest) (hleaf : f.all isLeaf = true) (hok : nodesOk f = true) :
-    (parseNode [] (Style.desc .enc) 0xff 0xff (-2) (renderOptions d 0 f)).code = 0
-    ∧ (parseNode [] (Style.desc .enc) 0xff 0xff (-2) (renderOptions d 0 f)).children = norm f := by
+/-- the element loop on an option list in the `{x}` format, from any clean parser state -/
+theorem loop_enc (d : Decor) (hd : d.ok) (f : Forest) (hleaf : f.all isLeaf = true) (hok : nodesOk f = true)
+    (s : St) (hclean : Clean [] s.path) (hv : s.valid = 0) :
+    (loop .enc cfgE nodeAppend ({} : Build) Flag.section_ s { rest := renderOptions d 0 f }).code = 0
+    ∧ (loop .enc cfgE nodeAppend ({} : Build) Flag.section_ s { rest := renderOptions d 0 f }).ctx.forest = norm f := by
   obtain ⟨b', prev', s', src', J', hr, _, hp, hf, _, heq⟩ :=
-    options_claim optStyle_E d hd f 0 0 [] ({} : Build) Flag.section_ ({} : St) { rest := renderOptions d 0 f } [] []
-      true hleaf hok ⟨clean_init, rfl, rfl, by simp⟩ (by simp [Mode, Flag.section_, Flag.sectEnd]) (Or.inl rfl) trivial
+    options_claim optStyle_E d hd f 0 0 [] ({} : Build) Flag.section_ s { rest := renderOptions d 0 f } [] []
+      true hleaf hok ⟨hclean, hv, rfl, by simp⟩ (by simp [Mode, Flag.section_, Flag.sectEnd]) (Or.inl rfl) trivial
   have hpo : PrevOpt prev' := by
     rw [hp]; split
     · exact Or.inl rfl
     · exact Or.inr (Or.inr rfl)
   obtain ⟨s2, src2, heof⟩ := optStyle_E.eof s' src' prev' J' false hr.clean hpo hr.junk (by simpa using hr.src)
   obtain ⟨hcode, hctx⟩ := loop_stop .enc cfgE b' prev' s' s2 src' src2 heof
-  have hloop : parseConfig .enc cfgE nodeAppend ({} : Build) Flag.section_ (renderOptions d 0 f)
-      = loop .enc cfgE nodeAppend b' prev' s' src' := by
-    unfold parseConfig; exact heq
-  have := parseNode_eq (Style.desc .enc) cfgE 120 .enc (renderOptions d 0 f) cfgE_desc (by decide) rfl _ hloop hcode
-  rw [hctx, hf] at this
-  simpa [appendAll_zero] using this
+  rw [heq]
+  refine ⟨hcode, ?_⟩
+  rw [hctx, hf]
+  simp [appendAll_zero]
+
+theorem parseNode_enc (d : Decor) (hd : d.ok) (f : Forest) (hleaf : f.all isLeaf = true) (hok : nodesOk f = true) :
+    (parseNode [] (Style.desc .enc) 0xff 0xff (-2) (renderOptions d 0 f)).code = 0
+    ∧ (parseNode [] (Style.desc .enc) 0xff 0xff (-2) (renderOptions d 0 f)).children = norm f := by
+  obtain ⟨hcode, hforest⟩ := loop_enc d hd f hleaf hok ({} : St) clean_init rfl
+  have := parseNode_eq (Style.desc .enc) cfgE 120 .enc (renderOptions d 0 f) cfgE_desc (by decide) rfl _ rfl
+    (by unfold parseConfig; exact hcode)
+  refine ⟨this.1, ?_⟩
+  rw [this.2]
+  unfold parseConfig
+  exact hforest
 
 /-! ### sections -/
 
